@@ -95,7 +95,7 @@ def corruptions():
         return recs
 
     def corrupt_mask(recs, rng):
-        i = pick(recs, rng, lambda r: r['e'] == 'Forward' and r['p']['k'] == 'w')
+        i = pick(recs, rng, lambda r: r['e'] == 'Forward' and r['p']['k'] == 'w' and r['p']['m'])
         if i is None:
             return None
         recs[i]['p']['m'][0] ^= 1
@@ -173,7 +173,7 @@ def nontrivial(recs):
 
 
 def scen_cfg(i):
-    return {'log2ps': 2, 'width': 1 + (i % 3), 'nmem': 1 << (i % 2), 'ntlb': 1 << ((i // 2) % 2), 'dev': 3}
+    return {'log2ps': 2, 'width': (2, 2, 1, 3)[i % 4], 'nmem': 1 << (i % 2), 'ntlb': 1 << ((i // 2) % 2), 'dev': 3}
 
 
 def run(ctx, selftest=False):
@@ -200,7 +200,9 @@ def run(ctx, selftest=False):
 
     # 2. spec -> code: behaviours as scenarios
     nsim = 500 if thorough else 80
-    behs, _ = ctx.simulate(['at'], 'AddrTransScen.tla', 'AddrTransScen.cfg', num=nsim, depth=70)
+    behs, _ = ctx.simulate(['at'], 'AddrTransScen.tla', 'AddrTransScen.cfg', num=nsim // 2, depth=70)
+    behs2, _ = ctx.simulate(['at'], 'AddrTransScen.tla', 'AddrTransScen_nf.cfg', num=nsim // 2, depth=70)
+    behs += behs2
     scen = []
     for i, b in enumerate(behs):
         sc = scen_cfg(i)
@@ -225,6 +227,11 @@ def run(ctx, selftest=False):
         raise vlib.Infra('driver failed: ' + p.stdout[-2000:])
     ctx.log('random environments: %s' % stats2)
     common.validate_and_triage(ctx, TSPEC, t2, {'cmd': 'c16', 'args': args[:-1]})
+
+    if ctx.violations:
+        # the verdict is taken; coverage requirements and the binding self-test need accepted traces
+        ctx.cov.update({'evaluations': stats['traces'] + stats2['traces'], 'distinct_nontrivial': 0})
+        return
 
     parts = vlib.split_traces(t1) + vlib.split_traces(t2)
     distinct = {json.dumps([{k: v for k, v in r.items() if k != 'seq'} for r in recs], sort_keys=True) for _, recs in parts}
